@@ -394,7 +394,7 @@ def _keyword_prefix_one(prog, R, rule, fn, kw):
          f"for the continuation {bad[0][0]!r} the scanner gives (answer, characters consumed) {bad[0][1]} ({len(bad)} of {len(rows)} rows deviate; '?' = not evaluable): a character that does not continue the keyword is consumed, or the header is recognised without the separating white space")
 
 
-def first_char_kinds(prog, ch):
+def first_char_kinds(prog, ch, nxt=None):
     """Token kinds (as shown terms) that Cursor::advance_token can return when the first character is the ASCII
     character `ch`; the guards is_whitespace / is_id_start / is_id_continue on that constant are folded."""
     from sym import deep_strip, show
@@ -407,6 +407,8 @@ def first_char_kinds(prog, ch):
             nb = sum(1 for nm, a, bb in st.calls if nm.endswith("Cursor::bump"))
             if nb == 0:
                 return ("adt", "std::option::Option::Some", (("c", "char", ch),))
+        if nxt is not None and cal.endswith("Cursor::first") and not any(nm.endswith(("Cursor::eat_while", "Cursor::eat_identifier")) for nm, a, bb in st.calls) and sum(1 for nm, a, bb in st.calls if nm.endswith("Cursor::bump")) == 1:
+            return ("c", "char", nxt)       # the character after the first one (peeked before anything else is consumed)
         if args and isinstance(args[0], tuple) and args[0][0] == "c" and isinstance(args[0][2], int) and args[0][2] < 128:
             c = args[0][2]
             if cal.endswith("oq3_lexer::is_whitespace"):
@@ -437,6 +439,22 @@ def pound_arm_check(prog, R, rule):
     want = {"TokenKind::Pragma", "TokenKind::Dim", "TokenKind::InvalidIdent"}
     R.ob(rule, "tokens starting with '#'", bool(ks) and ks <= want and "TokenKind::InvalidIdent" in ks, b.at,
          f"kinds: {sorted(ks)}" if ks <= want else f"a token starting with '#' can be {sorted(ks - want)}: a word such as `#dx` that is neither #pragma nor #dim is lexed as a valid token and gets no lexical diagnostic")
+
+
+def at_arm_check(prog, R, rule):
+    """`@` begins an annotation line exactly when an identifier start follows it directly (`@bind`); before anything
+    else -- a digit (`pow(2) @ x`, `ctrl @2`...), a blank, punctuation -- it is the modifier separator `@`, and the rest
+    of the line is lexed as ordinary tokens.  The kinds advance_token returns for '@' + one more character are
+    enumerated per class of that character."""
+    b = prog.body("oq3_lexer::Cursor::advance_token")
+    if b is None:
+        R.ob("ANCHOR", "oq3_lexer::Cursor::advance_token", False)
+        return
+    want = {"a": "Annotation", "Z": "Annotation", "_": "Annotation", "0": "At", "9": "At", " ": "At", "\n": "At", "(": "At", "@": "At", "$": "At", '"': "At"}
+    for c2, w in want.items():
+        ks = first_char_kinds(prog, ord("@"), ord(c2))
+        R.ob(rule, f"'@' followed by {c2!r}", ks == {"TokenKind::" + w}, b.at,
+             f"kinds: {sorted(ks or [])}" if ks == {"TokenKind::" + w} else f"'@' directly followed by {c2!r} is lexed as {sorted(ks or [])}, expected {w}: `@` before a digit-initial lexeme swallows the rest of the line into an annotation token, so `pow @ 2` and `pow @2` lex differently")
 
 
 def line_bounded_check(prog, R, rule):
